@@ -396,11 +396,11 @@ class C15(Check):
             return
         if only == 'world':
             ctx.phase(self.run_world, ctx, c, [('world-boundary', h) for h in G.world_boundary_histories()],
-                      ctx.sub_rng('c15-world'), generate=ctx.n(300, 8000))
+                      ctx.sub_rng('c15-world'), generate=ctx.n(300, 5000))
             return
         ctx.phase(self.run_histories, ctx, c, hist, rng, generate=ctx.n(2000, 25000))
         ctx.phase(self.run_world, ctx, c, [('world-boundary', h) for h in G.world_boundary_histories()],
-                  ctx.sub_rng('c15-world'), generate=ctx.n(300, 8000))
+                  ctx.sub_rng('c15-world'), generate=ctx.n(300, 5000))
         ctx.phase(self.corr_detached, ctx, c, rng)
         ctx.phase(self.corr_calls, ctx, c, ctx.sub_rng('c15-calls'))
         ctx.phase(self.oracle_logmode, ctx, c, ctx.sub_rng('c15-logmode'))
